@@ -1,7 +1,7 @@
 #!/bin/sh
 # tools/seedall.sh : re-verify every seeded change against the CURRENT tree: applies?, pinned tests, demo both ways, check verdict
 cd "$(dirname "$0")/.."
-for p in seeded/*/patch.diff seeded/*/r2*/patch.diff; do
+for p in seeded/*/patch.diff seeded/*/r[0-9]*/patch.diff; do
   d=$(dirname $p); id=$(echo $d | cut -d/ -f2)
   out=$(tools/mut.py $p $id --tests --demo $d/demo.py 2>&1)
   tests=$(echo "$out" | grep -c "all 37 stable tests pass")
